@@ -157,6 +157,8 @@ class B:
         A, Bm, C = self.raw((I, rank)), self.raw((rank, rank)), self.raw((K, rank))
         projs = [np.linalg.qr(self.raw((J + (i % 2 if ragged else 0), rank)))[0].astype(self.dtype) for i in range(I)]
         w = None if weights == "none" else np.ones(rank, dtype=self.dtype)
+        if weights == "nonunit":
+            w = (np.arange(rank) + 2).astype(self.dtype)
         if form == "tuple":
             return (w, [A, Bm, C], projs)
         if form == "list":
